@@ -373,8 +373,8 @@ class IO:
                     msg = "Eulerian grid size does not match loaded file!"
                     raise ValueError(msg)
 
-            # Load Lagrangian fields
-            if self.lagrangian_fields:
+            # Load Lagrangian grids and fields
+            if self.lagrangian_grids:
                 # First loop over and load each of the lagrangian grids
                 for lagrangian_grid_name in self.lagrangian_grids:
                     if f"Lagrangian/{lagrangian_grid_name}/Grid" not in keys:
